@@ -23,12 +23,18 @@ class WouldBlockForever(Exception):
     pass
 
 
+class RanAway(BaseException):
+    """virtual time passed the scenario's horizon: the code under test keeps polling / sleeping long after its deadline.
+    (BaseException so that no `except Exception` in the code under test swallows it.)"""
+
+
 class VClock(object):
     def __init__(self, tick=1e-5):
         self.now = 1000.0
         self.tick = tick
         self.arrivals = []          # [abs_time, callable]
         self.log = []
+        self.horizon = None         # absolute virtual time after which the scenario is aborted
 
     def schedule(self, rel_times_and_actions):
         t = self.now
@@ -41,19 +47,27 @@ class VClock(object):
             _, fn = self.arrivals.pop(0)
             fn()
 
+    def check_horizon(self):
+        if self.horizon is not None and self.now > self.horizon:
+            self.horizon = None
+            raise RanAway()
+
     def time(self):
         self.now += self.tick
         self.due()
+        self.check_horizon()
         return self.now
 
     def sleep(self, dt):
         self.now += max(0.0, dt)
         self.due()
+        self.check_horizon()
 
     def wait(self, ready, timeout):
         """the blocking wait; returns ready() at the end"""
         self.now += self.tick
         self.due()
+        self.check_horizon()
         if ready():
             return True
         if timeout == 0:
